@@ -24,7 +24,7 @@ variables.
 """
 
 from collections.abc import MutableMapping
-from contextlib import contextmanager
+from contextlib import ExitStack, contextmanager
 from struct import pack, unpack, unpack_from
 
 from .ebpf import (
@@ -47,20 +47,32 @@ class HashGlobalVar(Expression):
 
     @contextmanager
     def get_address(self, dst, long, force=False):
-        with self.ebpf.save_registers([i for i in range(6) if i != dst]), \
-                self.ebpf.get_stack(4) as stack:
-            self.ebpf.append(Opcode.ST, 10, 0, stack, self.count)
-            self.ebpf.r1 = self.ebpf.get_fd(self.fd)
-            self.ebpf.r2 = self.ebpf.r10 + stack
-            self.ebpf.call(FuncId.map_lookup_elem)
-            with self.ebpf.r0 == 0:
-                self.ebpf.exit()
-            if dst != 0 and force:
-                self.ebpf.append(Opcode.MOV + Opcode.LONG + Opcode.REG, dst,
-                                 0, 0, 0)
-            else:
-                dst = 0
-        yield dst, self.fmt
+        ebpf = self.ebpf
+        with ExitStack() as exitStack:
+            if force and dst is not None:
+                result = dst
+            elif 0 not in ebpf.owners:
+                result = 0
+            else:  # r0 is in use and will be restored after the call
+                result = exitStack.enter_context(ebpf.get_free_register(None))
+            release = result not in ebpf.owners
+            ebpf.owners.add(result)
+            with ebpf.save_registers(
+                    [i for i in range(6) if i != dst and i != result]), \
+                    ebpf.get_stack(4) as stack:
+                ebpf.append(Opcode.ST, 10, 0, stack, self.count)
+                ebpf.r1 = ebpf.get_fd(self.fd)
+                ebpf.r2 = ebpf.r10 + stack
+                ebpf.call(FuncId.map_lookup_elem)
+                with ebpf.r0 == 0:
+                    ebpf.exit()
+                if result != 0:
+                    ebpf.append(Opcode.MOV + Opcode.LONG + Opcode.REG, result,
+                                0, 0, 0)
+            ebpf.owners.add(result)
+            yield result, self.fmt
+            if release:
+                ebpf.owners.discard(result)
 
 
 class HashGlobalVarDesc:
